@@ -1,3 +1,12 @@
 import PeptVerif.Props.C01
-#print axioms Pept.scan_append
 #print axioms Pept.scan_roundtrip
+#print axioms Pept.parseMod_serialize
+#print axioms Pept.int_value_roundtrip
+#print axioms Pept.parseMods_roundtrip
+#print axioms Pept.parseStart_serializeStart
+#print axioms Pept.parseMiddle_serializeMiddle
+#print axioms Pept.parseEnd_serializeEnd
+#print axioms Pept.parse_serialize
+#print axioms Pept.serialize_fixpoint
+#print axioms Pept.parse_serialize_multi_partial
+#print axioms Pept.parse_serialize_crosslink_false
